@@ -24,11 +24,16 @@ def row_lit(r):
             f"{bl(r['done'])} {bl(r['timeout'])} {zl(r['ps'])} {zl(r['nps'])})")
 
 
+BIG = 2 ** 60 if jax.config.jax_enable_x64 else 2 ** 24
+
+
 def mk_row(uid, rng, obs_dim):
     # every field carries the unique id so that a row mixing two insertions is detected
     return {"obs": [float(uid + 0.25 * k) for k in range(obs_dim)], "next": [float(uid + 0.5 + 0.25 * k) for k in range(obs_dim)],
             "act": float(uid % 7), "rew": float(uid) / 4, "done": bool(rng.random() < 0.3), "timeout": bool(rng.random() < 0.2),
-            "ps": int(uid), "nps": int(uid + 1)}
+            # integer leaves far beyond the exact range of the float type of the same width: a buffer whose storage does not keep
+            # the dtype of what is inserted rounds them
+            "ps": int(BIG + uid), "nps": int(BIG + uid + 1)}
 
 
 def read_rows(buf, n, obs_dim):
